@@ -789,22 +789,48 @@ fn model_and_conformance(ctx: &Ctx) {
 
 static PRECISION_REPORTER_ITERS: std::sync::atomic::AtomicU64 = std::sync::atomic::AtomicU64::new(0);
 static PRECISION_HANG: AtomicBool = AtomicBool::new(false);
+static PRECISION_WORKERS_DONE: std::sync::atomic::AtomicU64 = std::sync::atomic::AtomicU64::new(0);
 
 /// Run `f` (which calls run_progress) with a pass-through scheduling handler that turns the reporter's sleep into
 /// a yield and bounds the reporter's iterations; returns (result, reporter_never_exited).
-pub fn with_bounded_reporter<R>(f: impl FnOnce() -> R) -> (R, bool) {
-    PRECISION_REPORTER_ITERS.store(0, Ordering::SeqCst);
-    PRECISION_HANG.store(false, Ordering::SeqCst);
-    verif::set_sched(Some(Arc::new(|label, _| {
-        if label == "reporter.top" {
-            let n = PRECISION_REPORTER_ITERS.fetch_add(1, Ordering::SeqCst);
-            if n > 3_000_000 {
-                PRECISION_HANG.store(true, Ordering::SeqCst);
-                panic!("reporter did not exit within 3e6 iterations");
+fn bounded_handler(label: &'static str, args: &[i64]) -> i64 {
+    match label {
+        "worker.done" => {
+            PRECISION_WORKERS_DONE.fetch_add(1, Ordering::SeqCst);
+        }
+        "reporter.exit" => reset_bounded(), // the next run_progress call of a sequence starts fresh
+        "reporter.top" => {
+            // the reporter is only bounded AFTER every worker has finished (while workers run it may spin arbitrarily long)
+            let n = args.first().copied().unwrap_or(0) as u64;
+            if PRECISION_WORKERS_DONE.load(Ordering::SeqCst) >= n {
+                let k = PRECISION_REPORTER_ITERS.fetch_add(1, Ordering::SeqCst);
+                if k > 200_000 {
+                    PRECISION_HANG.store(true, Ordering::SeqCst);
+                    panic!("reporter did not exit within 2e5 iterations after the last worker finished");
+                }
             }
         }
-        0
-    })));
+        _ => {}
+    }
+    0
+}
+
+pub fn reset_bounded_pub() {
+    reset_bounded();
+}
+
+fn reset_bounded() {
+    PRECISION_REPORTER_ITERS.store(0, Ordering::SeqCst);
+    PRECISION_WORKERS_DONE.store(0, Ordering::SeqCst);
+}
+
+/// Run `f` (which calls run_progress ONCE or several times in sequence) with a pass-through scheduling handler that
+/// turns the reporter's sleep into a yield and bounds the reporter's iterations after the last worker finished;
+/// returns (result, reporter_never_exited).
+pub fn with_bounded_reporter<R>(f: impl FnOnce() -> R) -> (R, bool) {
+    reset_bounded();
+    PRECISION_HANG.store(false, Ordering::SeqCst);
+    verif::set_sched(Some(Arc::new(bounded_handler)));
     let r = f();
     verif::set_sched(None);
     (r, PRECISION_HANG.swap(false, Ordering::SeqCst))
@@ -956,7 +982,7 @@ fn precision_grid(ctx: &Ctx) {
                 let c = cube(&t);
                 c.iter().flat_map(|ch| ch[1..].iter().flatten().map(|x| x.to_bits()).collect::<Vec<_>>()).collect::<Vec<u64>>()
             });
-            PRECISION_REPORTER_ITERS.store(0, Ordering::SeqCst);
+            reset_bounded();
             let b = catch(|| nuts_build::<$T, $B>(2, Some(5), false).run_progress(5, 2).map(|(t, st)| (tensor_bits(&t), v(&t), stats_bits(&st))).map_err(|e| e.to_string()));
             match (a, b) {
                 (Err(m), _) => ctx.violation(Violation::new(format!("C10:panic(NUTS::run {})", $name), m, case)),
@@ -988,7 +1014,7 @@ fn precision_grid(ctx: &Ctx) {
             ctx.transitions(4);
             ctx.state(hash_str(&case.to_string()));
             let a = mh_run_bits(&mut mh_build(n, Some(8), false), c, d);
-            PRECISION_REPORTER_ITERS.store(0, Ordering::SeqCst);
+            reset_bounded();
             let b = catch(|| mh_build(n, Some(8), false).run_progress(c, d).map(|x| arr3_bits(&x.0)).map_err(|e| e.to_string())).and_then(|r| r);
             if PRECISION_HANG.swap(false, Ordering::SeqCst) {
                 ctx.violation(Violation::new("C10:hang(core)", format!("MH run_progress with {n} chains ({c} collected, {d} discarded): the progress reporter never exits although every chain finished"), case.clone()));
@@ -999,7 +1025,7 @@ fn precision_grid(ctx: &Ctx) {
                 ctx.outcome("precision-ok", 1);
             }
             let a = gibbs_build(n, Some(8)).run(c, d).map(|x| arr3_bits(&x)).map_err(|e| e.to_string());
-            PRECISION_REPORTER_ITERS.store(0, Ordering::SeqCst);
+            reset_bounded();
             let b = catch(|| gibbs_build(n, Some(8)).run_progress(c, d).map(|x| arr3_bits(&x.0)).map_err(|e| e.to_string())).and_then(|r| r);
             if PRECISION_HANG.swap(false, Ordering::SeqCst) {
                 ctx.violation(Violation::new("C10:hang(core)", format!("Gibbs run_progress with {n} chains: the progress reporter never exits although every chain finished"), case.clone()));
@@ -1022,16 +1048,7 @@ pub fn run(ctx: &Ctx) {
     if on("precision") {
         // a pass-through handler: makes the reporter's 250 ms sleep a yield; it also bounds the number of reporter
         // iterations of one run_progress call (a reporter that never exits would otherwise hang the check itself)
-        verif::set_sched(Some(Arc::new(|label, _| {
-            if label == "reporter.top" {
-                let n = PRECISION_REPORTER_ITERS.fetch_add(1, Ordering::SeqCst);
-                if n > 3_000_000 {
-                    PRECISION_HANG.store(true, Ordering::SeqCst);
-                    panic!("reporter did not exit within 3e6 iterations");
-                }
-            }
-            0
-        })));
+        verif::set_sched(Some(Arc::new(bounded_handler)));
         precision_grid(ctx);
         verif::set_sched(None);
         lap("precision");
